@@ -50,6 +50,7 @@ PoolSets ==
       [] Family = "C02two" -> [i \in 1 .. 4 |-> PoolC02two({SetToSeq({"child", "descendant", "following-sibling", "ancestor"})[i]}, {NTAny},
                                 Atoms1({"child", "ancestor", "following", "preceding"}, {NTName("a")}))]
       [] Family = "C02paren" -> <<PoolC02paren(FlatPaths, Atoms1({"child", "ancestor", "following", "preceding-sibling", "parent"}, TestsA))>>
+      [] Family = "C02merge" -> [i \in 1 .. 3 |-> PoolC02merge({<<"child", "descendant", "self">>[i]})]
       [] Family = "C02paren2" -> <<PoolC02paren2({Path(TRUE, <<DosNode, Step("child", NTAny, <<>>)>>), Rel1("child", NTAny), Rel1("descendant", NTName("a"))},
                                                 {Rel1("child", NTAny), Call("not", <<Rel1("child", NTName("a"))>>), Bin("=", SelfDot, Lit("1")),
                                                  Rel1("following-sibling", NTAny), Rel1("ancestor", NTName("a")), Bin("!=", SelfDot, Lit("")),
@@ -73,6 +74,7 @@ PoolSets ==
       [] Family = "C15fn"   -> [i \in 1 .. Cardinality(AllFunctions) |-> PoolC15fn(SetToSeq(AllFunctions)[i], TypeRepsSmall)]
       [] Family = "C15fnwrap" -> [i \in 1 .. Cardinality(AllFunctions) |-> Wrap15(PoolC15fn(SetToSeq(AllFunctions)[i], TypeRepsSmall)) ]
       [] Family = "C15ops"  -> <<Wrap15(PoolC15ops), Wrap15(PoolC15misc)>>
+      [] Family = "C15edges" -> <<PoolC15edges>>
       [] Family = "C11pairs" -> <<PoolC11pairs(ElemNames)>>
       [] Family = "C11more"  -> <<PoolC11nested(ElemNames), PoolC11seq(ElemNames)>>
       [] Family = "C13wrap" -> [i \in 1 .. 12 |-> PoolC13wrap({SetToSeq(AllAxes)[i]}, TestsA)
